@@ -62,10 +62,22 @@ Theorem kernel_never_panics : forall (T : text) (lo hi : N) (cursor : option N) 
   forallb (fun o => negb (may_panic o)) ops = true -> run T lo hi cursor init ops <> Panic.
 Proof. exact Proofs.kernel_never_panics. Qed.
 
+(** TABLE OBLIGATIONS on today's source (Gen/C37_Classes.v is regenerated from util.rs on every run):
+    every character [util::is_ws] accepts, and every [char::is_ascii_whitespace] character, is ONE
+    byte long.  [desc_to_lines] needs exactly this: it counts the common indentation in characters
+    and strips it in bytes. *)
+Theorem is_ws_chars_one_byte : forallb (fun c => blen c =? 1) is_ws_chars = true.
+Proof. exact Proofs.is_ws_chars_one_byte. Qed.
+
+Theorem ascii_ws_chars_one_byte : forallb (fun c => blen c =? 1) ascii_ws_chars = true.
+Proof. exact Proofs.ascii_ws_chars_one_byte. Qed.
+
 (** [desc_to_lines] never panics (all its slices are on character boundaries) and every
     line it returns lies inside the region spanned by the tokens it walked, on character
     boundaries — or is the sentinel [EMPTY] = (0,0) that an end-of-line token pushes when no
-    start/detail token came before it on that line. *)
+    start/detail token came before it on that line.  (Depends on the two table obligations
+    above: with a multi-byte [is_ws] character the stripped indentation would end inside a
+    character and the next slice of the line would panic.) *)
 Theorem desc_lines_in_desc : forall (T : text) (lo hi : N) (prev : option tok) (tks : list tok) (cursor : option N),
   Forall (tok_ok T lo hi) (prev_toks prev ++ tks) ->
   exists ls, desc_to_lines T prev tks cursor = Val ls /\ Forall (line_ok' T lo hi) ls.
